@@ -8,7 +8,7 @@ EXTENDS CalParsers, Json, IOUtils
 Tr == ndJsonDeserialize(IOEnv.TRACE_FILE)
 VARIABLE l
 
-Expected(r) == <<r.ref[1], r.ref[2], r.ref[3], r.tm[1], r.tm[2], r.tm[3], 0>>
+Expected(r) == <<r.ref[1], r.ref[2], r.ref[3], r.tm[1], r.tm[2], r.tm[3], r.tm[4]>>
 InDomain(r) == /\ r.y >= 1 /\ r.m \in 1..12 /\ r.d >= 1 /\ r.d <= r.monthLen /\ r.d <= r.defLen
 PropVerdict(r) ==
   IF ~InDomain(r) THEN "skip"
